@@ -213,11 +213,11 @@ PROPS.update({
     "C35": {
         "level": "exploration", "engine": "SCHED",
         "rule": ("1-3 writer and 0-1 reader tasks (2-7 operations each; think times 0 / 300 ms / 2 s / 4 min so that flushes, checkpoints and WAL truncation interleave) with the background WAL writer (75%) "
-                 "or without it (25%, one writer); the graceful Shutdown of cmd/start is requested after a seed-chosen number of writes has returned (any point relative to pending flushes and "
+                 "or without it (25%, one writer); the graceful Shutdown of cmd/start is requested either after a seed-chosen number of writes has returned or (60% of the background-writer runs) at the k-th scheduling point of the other tasks - in the middle of a flush, a checkpoint or a request that has queued its commands (any point relative to pending flushes and "
                  "checkpoints: preemption 2-60% inside Shutdown, the WAL writer's exit path and the trigger dispatcher's drain); every bucket is read after Shutdown returned and again after a real restart on the same disk; "
                  "distinct_nontrivial = distinct (mode, schedule hash, #preemptions, #operations)"),
         "faults": ["seeded preemption at every yield point", "shutdown at a seeded moment", "virtual-time tickers (flush 500 ms, checkpoint 5 min)", "restart with startup recovery"],
-        "assumptions": ["tasks interleave at yield points only; requests still in flight when Shutdown returns are given 5 virtual seconds and then abandoned (the real process exits)"],
+        "assumptions": ["tasks interleave at yield points only; requests still in flight when Shutdown returns are given 5 virtual seconds and then abandoned (the real process exits); the bucket of such a request is compared before/after unless the request still touched the disk after the final queries began; runs in which a request took the inline-flush path of RequestFlush after Shutdown was requested carry one known-cause tag"],
         "explanation": "oracle: Shutdown returns (bounded virtual time, no panic); every bucket's all-time result is identical before and after the restart; every write acknowledged before Shutdown returned is present; no variable-length record is duplicated",
         "budget": {"quick": 40, "thorough": 900},
     },
